@@ -102,6 +102,14 @@ empty @is_you(int v, byte b) {
 }'''
 
 
+# globals that nothing refers to (still laid out, in declaration order), next to referenced ones, of every type
+UNREFERENCED = '''int unused_a = 1; byte unused_b = 'b'; bool unused_c = true; string unused_d = "dd"; int used_e = 5;
+const int[] unused_f = [1, 2, 3]; byte[] unused_g = ['g', 'h']; string[] unused_h = ["h1", "h2"]; int unused_i = 9; bool[] unused_j = [true, false, true];
+const string unused_k = "kk"; int used_l = 7; int zz_unused = 3; int aa_unused = 4; int mm_unused = 5;
+int helper_unused(int q) { return q + unused_i; }
+empty @is_you(int v) { write(used_e + used_l + v); }'''
+
+
 # ------------------------------------------------------------------------- driver
 def corpus(tier, seed):
     rng = random.Random(seed)
@@ -110,7 +118,7 @@ def corpus(tier, seed):
     # programs of the run-time families: many hash-ordered decisions hide in type inference and table building
     from . import gen as G, fam_seq, fam_tt
     progs += [('misc_' + n, src) for n, src, _ in fam_seq.MISC] + [('layout', fam_seq.LAYOUT_PROG)]
-    progs += [('mixed_literals', MIXED)] + [('tt_' + n, (t % {'kind': 'stop'}) if '%(kind)s' in t else t) for n, t, _ in fam_tt.TEMPLATES]
+    progs += [('mixed_literals', MIXED), ('unreferenced_globals', UNREFERENCED)] + [('tt_' + n, (t % {'kind': 'stop'}) if '%(kind)s' in t else t) for n, t, _ in fam_tt.TEMPLATES]
     progs += [('gen%d' % k, G.generate(seed * 811 + k, {'faults': 0.1})[0]) for k in range(12 if tier == 'quick' else 120)]
     progs += [('ttgen%d' % k, fam_tt.TTGen(seed * 811 + k).program()) for k in range(4 if tier == 'quick' else 40)]
     keys = []
